@@ -2,9 +2,20 @@
 
 package cmd
 
-import "context"
+import (
+	"context"
+
+	"github.com/mgtv-tech/redis-GunYu/pkg/cluster"
+	usync "github.com/mgtv-tech/redis-GunYu/pkg/sync"
+)
 
 // VerifGcStaleCheckpoint runs the body of the stale-checkpoint cron job once.
 func (sc *SyncerCmd) VerifGcStaleCheckpoint(ctx context.Context) {
 	sc.gcStaleCheckpoint(ctx)
+}
+
+// VerifClusterTicker runs the election ticker of one source shard (renewals of a leader,
+// campaigns of a follower) until wait is closed.
+func (sc *SyncerCmd) VerifClusterTicker(wait usync.WaitCloser, role cluster.ClusterRole, elect cluster.Election, input, key string) {
+	sc.clusterTicker(wait, role, elect, input, key)
 }
